@@ -876,7 +876,7 @@ class FortranReaderBase:
                 path = filename
                 for incl_dir in include_dirs:
                     path = os.path.join(incl_dir, filename)
-                    if os.path.exists(path):
+                    if os.path.isfile(path):
                         break
                 if not os.path.isfile(path):
                     # The include file does not exist in the specified
